@@ -25,7 +25,7 @@ def run(chk, tier):
     ops = []
     groups = []  # (start index, count) : all lines of a group must give the same hex
     for e in reg:
-        hot = e["name"].startswith(("Aes", "Kuz"))
+        hot = e["name"].startswith(("Aes", "Kuz", "Armv8", "Neon"))
         counts = list(range(0, 30)) if hot else [0, 1, 2, 3, 5]
         if not quick and hot:
             counts = list(range(0, 66))
